@@ -230,6 +230,8 @@ def mk_float(x):
 def pack(sv, ty=None):
     """z3 term of `sv` in the sort of `ty` (for storing in containers / fields)"""
     ty = ty or sv.ty
+    if sv.ty == ty and sv.t is not None and sv.items is None:
+        return sv.t
     if ty.kind == 'opt':
         inner = ty.args[0]
         if inner.is_reflike:
